@@ -184,4 +184,26 @@ theorem c06_gen_Roster_Search_eq (l : List Server) (sid : Nat) :
   unfold Gen.C06.Roster_Search Gen.Rt.enum rosterOf
   rw [← e]
   exact this
+
+/-- **`Roster.Get` as translated** (after /repo db213ab; before, the guard was `idx > len(ro.List)` and
+`Get(len(ro.List))` was an index panic although the function promises nil on an index error — probe
+`notes/probes/onet_roster_get_at_len_probe_test.go.txt`): it never panics; `nil` for an index outside the list, the
+entry for an index inside -/
+theorem c06_gen_Roster_Get_spec (ro : Gen.C06.Roster) (idx : Int) :
+    Gen.C06.Roster_Get ro idx =
+      some (if idx < 0 ∨ (ro.List.length : Int) ≤ idx then none else (ro.List[idx.toNat]?).getD none) := by
+  unfold Gen.C06.Roster_Get Gen.Rt.idx Gen.Rt.len
+  by_cases h1 : idx < 0
+  · simp [h1]
+  · by_cases h2 : (ro.List.length : Int) ≤ idx
+    · have h3 : idx ≥ Int.ofNat ro.List.length := by simpa using h2
+      simp [h1, h2, h3]
+    · have h3 : ¬ (idx ≥ Int.ofNat ro.List.length) := by simpa using h2
+      simp only [h1, h3, decide_false, Bool.or_self, Bool.false_eq_true, if_false, h2, or_self]
+      have hlt : idx.toNat < ro.List.length := by omega
+      simp [List.getElem?_eq_getElem hlt]
+
+/-- `Get(len(ro.List))` is nil (it was the panic) -/
+theorem c06_gen_Roster_Get_at_len : Gen.C06.Roster_Get { List := [some { ID := 7 }] } 1 = some none := by
+  rw [c06_gen_Roster_Get_spec]; simp
 end C06
